@@ -470,3 +470,4 @@ for _p, _t in _W14.items():
     MANIFEST_TEXT[_p]['text'] = MANIFEST_TEXT[_p]['text'].rstrip() + _t
 PROPS['C02'].setdefault('require', {}).update({'auto.status_equals_model': 100000, 'auto.with_failing_allocator': 50000})
 PROPS['C06'].setdefault('require', {}).update({'roundtrip.path.crypt-twice': 3000, 'roundtrip.path.decoded': 3000, 'roundtrip.path.decrypted-copy': 3000, 'roundtrip.path.encrypted-once': 3000})
+PROPS['C03'].setdefault('require', {}).update({'purity.created_at_an_out_of_range_clock': 500})
